@@ -25,6 +25,8 @@ type WaitCase struct {
 	Upper   bool   `json:"upper"`    // this case decides the "no wait before the first / after the last attempt" clauses
 	FB      bool   `json:"fb,omitempty"`      // a fallback that swallows every error is installed
 	ExecUs  int    `json:"exec_us,omitempty"` // a failing attempt spends this long before it returns
+	K0      int    `json:"k0,omitempty"`      // batch: first succeeding attempt of item 0 only (0: same as K)
+	CtxFar  bool   `json:"ctx_far,omitempty"` // the context also carries a deadline two hours away (explicit cancellation must still interrupt the wait)
 }
 
 type waitNode struct {
@@ -59,7 +61,11 @@ func (w *waitRun) exec(ctx context.Context, item int) (any, error) {
 	a := len(w.starts[item])
 	w.mu.Unlock()
 	var err error
-	if a < w.cs.K {
+	k := w.cs.K
+	if item == 0 && w.cs.K0 > 0 {
+		k = w.cs.K0
+	}
+	if a < k {
 		err = fmt.Errorf("attempt %d of item %d fails", a, item)
 		if w.cs.ExecUs > 0 {
 			time.Sleep(time.Duration(w.cs.ExecUs) * time.Microsecond)
@@ -112,6 +118,9 @@ func runWaitCase(cs *WaitCase) (*waitObs, []finding) {
 	ctx := context.Background()
 	if cs.Cancel > 0 {
 		c, cf := context.WithCancel(ctx)
+		if cs.CtxFar {
+			c, cf = context.WithTimeout(ctx, 2*time.Hour)
+		}
 		ctx, w.cancel = c, cf
 		defer cf()
 	}
@@ -213,6 +222,17 @@ func runWaitCase(cs *WaitCase) (*waitObs, []finding) {
 			o.BeforeFirst = int64(st[0].Sub(w.prepEnd))
 		}
 		o.AfterLast = int64(ret.Sub(lastEnd))
+		if cs.C == 0 {
+			// sequential: the first attempt of item i+1 follows the last attempt of item i without any wait
+			for it := 0; it+1 < cs.Items; it++ {
+				en, st := w.ends[it], w.starts[it+1]
+				if len(en) > 0 && len(st) > 0 {
+					if g := int64(st[0].Sub(en[len(en)-1])); g > o.BeforeFirst {
+						o.BeforeFirst = g // worst "before the first attempt" gap over all items
+					}
+				}
+			}
+		}
 	}
 	if cs.Cancel > 0 {
 		o.ReturnAfterCancelNs = int64(ret.Sub(w.cancelAt))
@@ -283,6 +303,12 @@ func runC20(c *Cfg) {
 		cases = append(cases, &WaitCase{Family: "upper", Kind: kind, WaitNs: int64(300 * time.Millisecond), N: 2, K: 1, Upper: true, Items: 2})
 		cases = append(cases, &WaitCase{Family: "upper", Kind: kind, WaitNs: int64(300 * time.Millisecond), N: 2, K: 3, Upper: true, Items: 1})
 		cases = append(cases, &WaitCase{Family: "upper", Kind: kind, WaitNs: int64(300 * time.Millisecond), N: 5, K: 1, Upper: true, Items: 2})
+		if kind == "batch" {
+			// item 0 exhausts its budget (one wait), item 1 succeeds at once: no wait may be carried over to item 1
+			cases = append(cases, &WaitCase{Family: "upper", Kind: kind, WaitNs: int64(300 * time.Millisecond), N: 2, K: 1, K0: 3, Upper: true, Items: 3})
+			// budget 1 with an hour-long wait configured: nothing ever waits
+			cases = append(cases, &WaitCase{Family: "no-retries-hour-wait", Kind: kind, WaitNs: int64(time.Hour), N: 1, K: 1, K0: 2, Items: 3})
+		}
 	}
 	// interruptibility: 1-hour wait, cancelled after the first attempt (later attempt indices cannot be reached
 	// through an hour-long wait), from a helper goroutine 20 ms later and from inside the callback
@@ -294,7 +320,8 @@ func runC20(c *Cfg) {
 						continue
 					}
 					cases = append(cases, &WaitCase{Family: "interrupt", Kind: kind, WaitNs: int64(time.Hour), N: n, K: n + 1, Cancel: 1, InCB: in, C: cc, Items: 3})
-					cases = append(cases, &WaitCase{Family: "interrupt", Kind: kind, WaitNs: int64(time.Hour), N: n, K: n + 1, Cancel: 1, InCB: in, C: cc, Items: 3, FB: true})
+					cases = append(cases, &WaitCase{Family: "interrupt", Kind: kind, WaitNs: int64(time.Hour), N: n, K: n + 1, Cancel: 1, InCB: in, C: cc, Items: 3, FB: true, CtxFar: n%2 == 0})
+					cases = append(cases, &WaitCase{Family: "interrupt", Kind: kind, WaitNs: int64(time.Hour), N: n, K: n + 1, Cancel: 1, InCB: in, C: cc, Items: 3, CtxFar: true})
 				}
 			}
 		}
